@@ -32,6 +32,7 @@ MIN_NONTRIVIAL = {"quick": 100, "thorough": 2000}
 WALL_BUDGET = {"quick": 200, "thorough": 2400}
 KF = "nv-transpile:two-qubit-gate-on-loaded-Q-register"
 KF_ELECTRON = "nv-transpile:carbon-carbon-gate-needs-allocated-electron"
+KF_C15 = "nv-transpile:end-label-no-op-overwrites-register-C15"
 
 
 def cases(ctx):
@@ -308,6 +309,9 @@ def _direct(ctx, case):
         return ctx.case(case, True)
     d = compare_sides(V.ex, N.ex, names, "C15" in names) or electron_control(ctx, N.ex)
     if d:
+        if d.startswith("register C15:") and d.endswith("transpiled run 1337"):
+            # known mechanism: a branch to the label at the very end makes the transpiler append `set C15 1337` as something to jump to
+            key = KF_C15
         _judge(ctx, case, d, key)
     trace = [pc for (_, pc, _) in V.ex.pc_trace]
     jumped = any(b != a + 1 for a, b in zip(trace, trace[1:]))
